@@ -260,6 +260,27 @@ def run(ctx: Ctx, rs: RuleSet, tier: str):
              f'{f.qualname}:`{unparse(e)[:50]}`',
              f'stores `{val}`; only-if-unset={guarded}; '
              f'only-if-default-exists={dflt_guard}', ctx.loc(f, e))
+  # a dataclass field with default_factory has a placeholder object as its
+  # signature default: it is never stored as a value
+  rule5 = 'SHAPE.factory-placeholder'
+  rs.declare(rule5, 'materialize_defaults never stores the placeholder that '
+             'stands for a dataclass default_factory', 1)
+  loop_heads = {m for m in g.nodes() if g.kind[m] == 'for'}
+  fac_tests = [m for m in g.nodes() if g.kind[m] == 'if' and any(
+      isinstance(c, ast.Call) and unparse(c.func).endswith(
+          '_field_uses_default_factory') for c in ast.walk(g.stmt[m].test))]
+  for n, e, _ in stores:
+    ok = any(g.dominated_by(n, {m}, labels=cfg_lib.NO_EXC) and n not in g.reach(
+        [x for x, lab in g.succ[m] if lab == 'true'], blocked=loop_heads | {m},
+        labels=cfg_lib.NO_EXC) for m in fac_tests)
+    rs.check(ok, rule5, f'{f.qualname}:`{unparse(e)[:50]}`:factory',
+             'skipped for default_factory fields' if ok else
+             f'`{unparse(e)[:60]}` can store the signature default of a '
+             'dataclass field that uses default_factory - a private '
+             'placeholder object, not a value: the configuration still builds '
+             'but can no longer be serialized (UnserializableValueError)',
+             ctx.loc(f, e))
+
   # the index under which a positional-only default is stored is the
   # parameter's position in the whole signature
   rule4 = 'IDX.signature-position'
